@@ -190,6 +190,9 @@ def showErr : Err → String
   | .unsupported => "err unsupported"
   | .panic => "panic"
 
+/-- After an assigning expansion the driver prints `P0`: the model's lists and maps are values, so
+    whoever else holds the variable's previous value (the parent of a subshell) still sees it
+    unchanged; the harness prints `P1` when the Go code wrote into the previous slices or map. -/
 def isAssign (pe : PE) : Bool :=
   match pe.exp with
   | some (op, _) => op == .asgUnset || op == .asgUnsetOrNull
@@ -199,12 +202,12 @@ def showFields (pe : PE) : Except Err (List Str × Env) → String
   | .error e => showErr e
   | .ok (fs, env) =>
     " ".intercalate ("ok" :: toString fs.length :: fs.map hexOfStr)
-      ++ (if isAssign pe then " | " ++ showVar (env.get pe.name) else "")
+      ++ (if isAssign pe then " | " ++ showVar (env.get pe.name) ++ " P0" else "")
 
 def showLit (pe : PE) : Except Err (Str × Env) → String
   | .error e => showErr e
   | .ok (s, env) =>
-    "ok " ++ hexOfStr s ++ (if isAssign pe then " | " ++ showVar (env.get pe.name) else "")
+    "ok " ++ hexOfStr s ++ (if isAssign pe then " | " ++ showVar (env.get pe.name) ++ " P0" else "")
 
 /-- the `"${!m[@]}"` path yields map iteration order in Go: compared up to permutation -/
 def unorderedKeys (env : Env) (pe : PE) (quoted : Bool) : Bool :=
